@@ -1,6 +1,7 @@
 package live
 
 import (
+	"bytes"
 	"context"
 	"errors"
 	"fmt"
@@ -579,6 +580,106 @@ func runTwoReaders(sc *Scenario, out *Out) {
 			viol("lost-wakeup", fmt.Sprintf("reader B is still blocked 8 s after piece %d was verified and announced", p))
 		}
 		b.Close()
+		if len(out.Violations) > 0 {
+			return
+		}
+	}
+}
+
+// runTwoBlocked: several Readers of one torrent blocked on the same missing
+// piece at the same time (Requests.tla: several consumers want one piece; its
+// verification wakes all of them).  C02: each blocked read returns the data.
+func runTwoBlocked(sc *Scenario, out *Out) {
+	viol := func(key, what string) {
+		out.Violations = append(out.Violations, Viol{"C02", key, what, 0})
+		out.Violations = append(out.Violations, Viol{"C10", key, what, 0})
+	}
+	const ps = 32768
+	seed := uint64(sc.ID) + 191
+	t, err := mktor.New(mktor.Spec{Name: fmt.Sprintf("tb-%d", sc.ID), PieceLen: ps, Length: 4*ps - 700, Seed: seed}, "")
+	if err != nil {
+		out.Note = err.Error()
+		return
+	}
+	ctx, cancel := context.WithCancel(context.Background())
+	defer cancel()
+	t, err = tor.AddTorrent(ctx, t)
+	if err != nil {
+		out.Note = err.Error()
+		return
+	}
+	defer func() {
+		k, c2 := context.WithTimeout(context.Background(), 5*time.Second)
+		t.Kill(k)
+		c2()
+	}()
+	give := func(i int) {
+		l := ps
+		if i == 3 {
+			l = ps - 700
+		}
+		for b := 0; b < l; b += 16384 {
+			n := min(16384, l-b)
+			t.Pieces.AddData(uint32(i), uint32(b), content.Range(seed, int64(i*ps+b), n), 1)
+		}
+		t.Pieces.Finalise(uint32(i), t.PieceHashes[i])
+		t.Have(uint32(i), true)
+	}
+	nreaders := 2 + sc.ID%2
+	for _, p := range []int{1, 3} {
+		type res struct {
+			who  int
+			off  int64
+			data []byte
+			err  error
+		}
+		done := make(chan res, nreaders)
+		var readers []*tor.Reader
+		for k := 0; k < nreaders; k++ {
+			off := int64(p*ps + 100 + 5000*k)
+			r := t.NewReader(context.Background(), off, 3000)
+			readers = append(readers, r)
+			go func(k int, off int64, r *tor.Reader) {
+				buf := make([]byte, 1000)
+				n, err := io.ReadFull(r, buf)
+				done <- res{k, off, buf[:n], err}
+			}(k, off, r)
+			// reader k is registered as a waiter before the next one asks
+			registered := false
+			for n := 0; n < 1000 && !registered; n++ {
+				g1, g2 := make(chan *peer.TorStats), make(chan *peer.TorStats)
+				t.Event <- peer.TorGetStats{Ch: g1}
+				t.Event <- peer.TorGetStats{Ch: g2}
+				<-g1
+				prio, _ := t.VerifRequested()
+				registered = len(prio[uint32(p)]) > k
+				<-g2
+				if !registered {
+					time.Sleep(2 * time.Millisecond)
+				}
+			}
+			if !registered {
+				out.Note = fmt.Sprintf("reader %d's request never reached the table", k)
+				return
+			}
+		}
+		give(p)
+		for k := 0; k < nreaders; k++ {
+			select {
+			case r := <-done:
+				if r.err != nil {
+					viol("reader-error", fmt.Sprintf("reader %d of %d blocked on piece %d: %v", r.who, nreaders, p, r.err))
+				} else if !bytes.Equal(r.data, content.Range(seed, r.off, len(r.data))) {
+					viol("read-wrong-bytes", fmt.Sprintf("reader %d of %d blocked on piece %d returned bytes that are not the torrent's at offset %d", r.who, nreaders, p, r.off))
+				}
+			case <-time.After(8 * time.Second):
+				viol("read-stalled", fmt.Sprintf("%d readers were blocked on piece %d; %d of them are still blocked 8 s after the piece was verified and announced", nreaders, p, nreaders-k))
+				k = nreaders
+			}
+		}
+		for _, r := range readers {
+			r.Close()
+		}
 		if len(out.Violations) > 0 {
 			return
 		}
